@@ -189,6 +189,7 @@ class Engine:
         self.solver = z3.SolverFor(logic)
         self.solver.set('timeout', query_timeout_ms)
         self.query_timeout_ms = query_timeout_ms
+        self.slow_timeout_ms = 300000          # conjunct-wise retry of an obligation the quick budget left open
         self.max_paths = max_paths
         self.loop_bound = loop_bound
         self.merge_enabled = True
@@ -408,7 +409,7 @@ class Engine:
                 env[nm] = v
         return zb(eval(k['region'], env))
 
-    def oblige(self, kind, label, cond, detail=''):
+    def oblige(self, kind, label, cond, detail='', timeout_ms=None):
         """Prove pc => cond now; record result."""
         regs = self._kf_regions(kind, label)
         if regs:
@@ -431,7 +432,13 @@ class Engine:
                     break
             if hit is not None:
                 return hit
-            r, m = self._check(z3.Not(c))
+            if timeout_ms:
+                self.solver.set('timeout', timeout_ms)
+            try:
+                r, m = self._check(z3.Not(c))
+            finally:
+                if timeout_ms:
+                    self.solver.set('timeout', self.query_timeout_ms)
             if r == z3.unsat:
                 ob.status = 'proved'
             elif r == z3.sat:
@@ -468,7 +475,7 @@ class Engine:
             self.obligations.remove(ob)
             worst = None
             for n, c in conds:
-                o2 = self.oblige(kind, label, c, detail)
+                o2 = self.oblige(kind, label, c, detail, timeout_ms=self.slow_timeout_ms)
                 if o2.status == 'proved':
                     self.obligations.remove(o2)
                     continue
